@@ -152,6 +152,9 @@ def run_case(case, res):
             final = reorgrun.sim_for(recipes + ['new']).blocks
             w.daemon.set_chain(final)
         died = None
+        undone = []
+        w.on_job_end = lambda job: undone.append(1) if getattr(job.func, '__name__', '') == \
+            'backup_block' else None
         try:
             w.poll()
         except world.SyncFailed as e:
@@ -161,6 +164,10 @@ def run_case(case, res):
         res.count('executions')
         res.distinct('relation', ('depth<=limit' if depth <= limit else 'depth=limit+1', kind,
                                   'died' if died else 'ok'))
+        if died is None and not failures and kind == 'forced' and len(undone) != depth:
+            # the operator's `reorg N` within the window undoes exactly N blocks
+            failures.append(('forced-reorg-undid-another-number-of-blocks',
+                             dict(depth=depth, limit=limit, error=f'{len(undone)} blocks undone')))
         if died is None and not failures:
             reorgrun.check_final(w, final, res, failures, limit, label='after-reorg', populate=True)
         elif died is not None:
